@@ -29,3 +29,6 @@ ASSUMPTIONS = [
     "margin rule: scenarios with ||z|-threshold| < 1e-3*threshold, or a range end within 1e-3 MHz of a channel centre without being exactly on it, are rejected",
     "with repeated calls of one kind the component mask holds the latest call while chan_mask keeps the union of all calls",
 ]
+
+# dimensions added in seeded rounds 6 and 7
+PROBES = list(PROBES) + ["output-name-held-a-longer-file", "integer-arguments-as-numpy-scalars"]
